@@ -316,13 +316,13 @@ pub fn vec_op_push(stack: &mut Vec<Primitive>, locals: &Locals, op_name: &OpName
     Ok(())
 }}
 """)
-    obls.append(Obl("C15.vec_op.push-value", ["C15", "C13"], fn="vec_op_push", desc="vec_op `+R`: the element's value (copied out of any element / field pointer) is appended to the list in register R"))
+    obls.append(Obl("C15.vec_op.push-value", ["C15", "C13", "C08"], fn="vec_op_push", desc="vec_op `+R`: the element's value (copied out of any element / field pointer) is appended to the list in register R"))
     obls.append(Obl("C13.index.vector", ["C13", "C17", "C01"], fn="index_vector", desc="list index read/assignment target: out-of-range index -> failure, no value; in range -> pointer to exactly that slot"))
     gen = header(log, f"{FUNC}: BuiltInFunction::run arms " + ", ".join(ARMS) + f"; {PRIM}: Primitive::equals (list arm); instruction.rs: vec_op (list index arm)") + SPEC + "\n".join(fns) + "\n} // verus!\nfn main() {}\n"
     return gen, obls, log
 
 
-UNITS = [VUnit("c13_lists", ["C13", "C17", "C15"], "list methods vs the sequence model, with sharing as an explicit heap", build)]
+UNITS = [VUnit("c13_lists", ["C13", "C17", "C15", "C08"], "list methods vs the sequence model, with sharing as an explicit heap", build)]
 UNITS[0].assumes = ["gc / RefCell semantics assumed: a list handle denotes a heap cell; clones alias it; GcVector::new allocates a cell no handle points to; std::vec::Vec operations have their documented meaning",
                     "the argument vector has the shape the compiler's typing guarantees (receiver is a list, argument kinds) -- preconditions",
                     "element equality (Primitive::equals) is an uninterpreted relation here",
